@@ -1,4 +1,5 @@
 import LitexModel.Wishbone.Interconnect
+import LitexModel.Wishbone.InterconnectSoc
 import LitexModel.DriverLib
 import LitexModel.Bits
 /-
@@ -13,6 +14,8 @@ import LitexModel.Bits
   open shared <n> <m> <reg 0|1> <timeout none|t> <dw> <addrWidth> <dec_0> … <dec_{m-1}>
   open xbar   <n> <m> <reg 0|1> <dw> <addrWidth> <dec_0> … <dec_{m-1}>
   open p2p
+  open socbus <n> <kind shared|crossbar> <reg 0|1> <timeout none|t> <dw> <addrWidth> <origin:size> …
+       (the model itself selects point-to-point / shared / crossbar as `SoCBusHandler.do_finalize` does)
   decoder words:  all | hi:<shift>:<val> | set:<a>,<b>,… | region:<origin>:<size>
   (`dw` = data width in bits, `addrWidth` = `bus.address_width`, the byte-address width.)
 -/
@@ -83,5 +86,24 @@ def parseXbar (args : List String) : Option (XbCfg) :=
     let ds ← decs.mapM parseDec
     if ds.length = m then some { n, m, dec := decOfSpecs dw aw ds, reg } else none
   | _ => none
+
+def parseRegion (w : String) : Option (Nat × Nat) :=
+  match w.splitOn ":" with
+  | [o, sz] => do some (← o.toNat?, ← sz.toNat?)
+  | _ => none
+
+def parseSoc (args : List String) : Option SocCfg :=
+  match args with
+  | n :: kind :: reg :: t :: dw :: aw :: regs => do
+    let n ← n.toNat?
+    let kind ← (match kind with | "shared" => some BusKind.shared | "crossbar" => some BusKind.crossbar | _ => none)
+    let reg ← parseBool reg; let t ← parseTimeout t
+    let dw ← dw.toNat?; let aw ← aw.toNat?
+    let rs ← regs.mapM parseRegion
+    some { n, regions := rs, kind, reg, timeout := t, dw, aw }
+  | _ => none
+
+def topologyName : Topology → String
+  | .none => "none" | .p2p => "p2p" | .shared => "shared" | .crossbar => "crossbar"
 
 end Litex.Wishbone
